@@ -65,7 +65,7 @@ func init() { register(&authProp{}) }
 func (p *authProp) ID() string { return "C16" }
 
 func (p *authProp) Rule() string {
-	return "scenario = 2-4 simulated registry hosts with distinct credentials and schemes (none, Basic, Bearer via distribution or OAuth2 flow, realm on the registry host or on a foreign host, scheme change mid-history, cross-host redirects), a sequence or concurrent mix (2-6 tasks) of requests through one auth.Client with cache flavour none/shared/single-context and permuted/duplicated/wildcarded scope hints and challenge scopes; every HTTP exchange is a scheduling point; non-trivial = at least one token or Basic credential was obtained and >=2 hosts were addressed, or >=2 tasks interleaved; distinct = distinct (request trace hash)"
+	return "scenario = 2-4 simulated registry hosts with distinct credentials and schemes (none, Basic, Bearer via distribution or OAuth2 flow, realm on the registry host or on a foreign host, scheme change mid-history, redirects to a CDN host and to another registry - one that shares the host name and differs in the port only when the redirecting registry asks for no authentication), a sequence or concurrent mix (2-6 tasks) of requests through one auth.Client with cache flavour none/shared/single-context and permuted/duplicated/wildcarded scope hints and challenge scopes; every HTTP exchange is a scheduling point; non-trivial = at least one token or Basic credential was obtained and >=2 hosts were addressed, or >=2 tasks interleaved; distinct = distinct (request trace hash)"
 }
 
 func (p *authProp) Components() map[string][]string {
@@ -790,6 +790,9 @@ func (p *authProp) run(rc *RunCtx, ap *AuthParams, info *RunInfo) *Verdict {
 			// the request ends is that host's business (its 401 is a legitimate end); where
 			// secrets went is judged above like for every other exchange
 			info.Probes["redirected_to_other_registry"]++
+			if hostOnly(ap.Hosts[d.q.Host].Name) == hostOnly(ap.Hosts[ap.Hosts[d.q.Host].RedirectTo-1].Name) {
+				info.Probes["redirected_to_other_port_of_same_host_name"]++
+			}
 			continue
 		}
 		if ap.Hosts[d.q.Host].NoCred {
